@@ -70,6 +70,8 @@ Clause(e, s0, s1, must, f0) ==
 RECURSIVE FoldBody(_, _, _, _)
 FoldBody(s, R, body, k) ==
   IF k > Len(body) THEN [st |-> s, raised |-> FALSE]
+  \* one object under two names (`p = n = h.Signal()`): refused, as the procedural m.p = x; m.n = x is
+  ELSE IF \E j \in 1..(k - 1) : body[j][3] = body[k][3] /\ body[j][1] # body[k][1] /\ ~IsPrivate(body[j][1]) /\ ~IsPrivate(body[k][1]) THEN [st |-> s, raised |-> TRUE]
   ELSE LET r == SetAttr(s, R, body[k][1], body[k][2], body[k][3]) IN
        IF r.raised THEN r ELSE FoldBody(r.st, R, body, k + 1)
 
